@@ -392,6 +392,21 @@ func c09Reconnect(c *Ctx) {
 		cfg := client.NewConfig("me", "ident", "Real")
 		cfg.Server, cfg.Proxy, cfg.Flood, cfg.PingFreq = "irc.test", url, true, 0
 		conn := client.Client(cfg)
+		// every other run: the first connection ends (EOF) while a foreground handler of it is still at work, and the
+		// application's supervisor calls Connect at once; the handler returns a little later
+		busy := k%2 == 1
+		release := make(chan struct{})
+		entered := make(chan struct{}, 1)
+		if busy {
+			desc = "the first connection ends (EOF) while one of its foreground handlers is still at work, another goroutine reconnects at once, then 2 x 50 numbered lines"
+			rp["op"] = "reconnect-while-old-handler-runs"
+			conn.HandleFunc("NOTICE", func(_ *client.Conn, l *client.Line) {
+				if l.Text() == "hold" {
+					entered <- struct{}{}
+					<-release
+				}
+			})
+		}
 		if conn.Connect() != nil {
 			c.Res.Inconclusive++
 			continue
@@ -400,17 +415,30 @@ func c09Reconnect(c *Ctx) {
 		gate <- struct{}{} // NICK
 		gate <- struct{}{} // USER
 		srv1.WaitLines(2, 3*time.Second)
-		nOld := c.R.Range(1, 5)
-		for i := 0; i < nOld; i++ {
-			conn.Raw(fmt.Sprintf("PRIVMSG #old :line %d handed over on the first connection", i))
-		}
-		time.Sleep(3 * time.Millisecond) // the first of them is now inside the gated write
-		if !withTimeout(5*time.Second, func() { conn.Close() }) {
-			c.Res.Inconclusive++
-			continue
+		if busy {
+			srv1.SendLine(":n!u@h NOTICE me :hold")
+			select {
+			case <-entered:
+			case <-time.After(3 * time.Second):
+			}
+			srv1.EOF()
+			time.AfterFunc(40*time.Millisecond, func() { close(release) })
+		} else {
+			nOld := c.R.Range(1, 5)
+			for i := 0; i < nOld; i++ {
+				conn.Raw(fmt.Sprintf("PRIVMSG #old :line %d handed over on the first connection", i))
+			}
+			time.Sleep(3 * time.Millisecond) // the first of them is now inside the gated write
+			if !withTimeout(5*time.Second, func() { conn.Close() }) {
+				c.Res.Inconclusive++
+				continue
+			}
 		}
 		for i := 0; i < 64; i++ { // the second connection's socket is not gated any more in effect
 			gate <- struct{}{}
+		}
+		if busy { // Connect is refused while the flag is still up: the supervisor polls
+			waitFor(func() bool { return !conn.Connected() }, 3*time.Second)
 		}
 		go func() {
 			for {
